@@ -132,7 +132,10 @@ func (c *ColMap[K, V]) DecodeColumn(r *Reader, rows int) error {
 		return errors.Wrap(err, "offsets")
 	}
 
-	count := int(c.Offsets[rows-1])
+	count, err := checkOffsets(c.Offsets)
+	if err != nil {
+		return errors.Wrap(err, "offsets")
+	}
 	if err := checkRows(count); err != nil {
 		return errors.Wrap(err, "keys count")
 	}
